@@ -94,10 +94,20 @@ def run(ctx):
         if tot_alts > 120 or max_len_ > 9:
             ctx.event('schema-skipped-too-large')
             continue
+        rival = None
+        lvs.REENTER['checker'] = None
+        if not schema.get('default_fns') and si % 4 == 2:
+            FNS_LIB = lvs.reentrant_fns(FNS_LIB)
         try:
             with monitors.Steps(reach=reach):
                 model = compile_lvs(text)
+                if si % 2:
+                    model = compile_lvs(text)       # the same text compiled a second time in this process: the second result is used
+                    ctx.event('schema-text-compiled-twice')
                 checker = Checker(model, FNS_LIB)
+            if not schema.get('default_fns') and si % 3 == 0:
+                rival = Checker(compile_lvs(text), lvs.rival_fns(lvs.USER_FNS))
+                ctx.event('rival-checker-with-same-named-functions')
         except (SemanticError, LvsModelError) as e:
             # whether clean schemas are accepted is C13's clause; here a schema without a compiled model cannot be judged
             ctx.event('schema-rejected-not-judged')
@@ -137,6 +147,15 @@ def run(ctx):
                 ctx.event('schema-abandoned-slow')       # generator guard only: nothing is concluded from wall time
                 break
             exp = ref.match(name)
+            if rival is not None and ni % 2 == 0:
+                try:
+                    for _ in rival.match(name if name else '/'):
+                        pass
+                except Exception:   # noqa
+                    pass
+            if ni == 0 and not schema.get('default_fns') and si % 4 == 2:
+                lvs.REENTER.update(checker=checker, names=[n for n in names if n and ref.match(n)][:3] or names[1:3])
+                ctx.event('schema-with-functions-that-re-enter-their-checker')
             wn = dict(w, name=rc.name_to_uri(name, canonical=True))
             if exp and ni % 5 == 0:
                 # legal uses of the generator: abandoned after the first result, and two iterations interleaved
@@ -209,6 +228,10 @@ def run(ctx):
     for k in ('_replicate_rules', '_generate_node', '_sanity_check'):
         ctx.require_reach(k)
     for k in ('name-matching', 'name-not-matching'):
+        ctx.need_event(k)
+    lvs.REENTER['checker'] = None
+    ctx.extra['user_function_calls_that_re_entered_the_checker'] = lvs.REENTER['calls']
+    for k in ('schema-text-compiled-twice', 'rival-checker-with-same-named-functions', 'schema-with-functions-that-re-enter-their-checker'):
         ctx.need_event(k)
     ctx.need_class('schema-with-double-reference')
     ctx.need_event('schema', 40)      # most generated schemas must have compiled, otherwise nothing was decided
